@@ -101,13 +101,18 @@ func buildNative(eng *Engine, work string, pkg string, entries []string) *native
 		ov[k] = v
 	}
 	ov[filepath.Join(repoDir, rel, "zz_verif_replay_test.go")] = testFile
+	tags := "verif"
+	if src, dst, ok := clockOverlay(work); ok {
+		ov[src] = dst
+		tags = "verif,verifnative"
+	}
 	ob, _ := json.Marshal(map[string]interface{}{"Replace": ov})
 	ovFile := filepath.Join(work, "overlay_"+tag+".json")
 	os.WriteFile(ovFile, ob, 0o644)
 	bin := filepath.Join(work, "replay_"+tag+".test")
 	ctx, cancel := context.WithTimeout(context.Background(), 10*time.Minute)
 	defer cancel()
-	cmd := exec.CommandContext(ctx, "go", "test", "-c", "-tags", "verif", "-overlay", ovFile, "-vet=off", "-o", bin, pkg)
+	cmd := exec.CommandContext(ctx, "go", "test", "-c", "-tags", tags, "-overlay", ovFile, "-vet=off", "-o", bin, pkg)
 	cmd.Dir = repoDir
 	cmd.Env = goEnv()
 	out, err := cmd.CombinedOutput()
@@ -119,6 +124,54 @@ func buildNative(eng *Engine, work string, pkg string, entries []string) *native
 		dir = repoDir // virtual (overlay-only) package
 	}
 	return &nativeBuild{bin: bin, dir: dir}
+}
+
+// clockOverlay writes a copy of the toolchain's time/time.go whose Now, Since and
+// Until consult replay hooks (set by harness/vnd/clock_native.go), so that the
+// clock readings of a solver model are replayed against the real build. The
+// copy is regenerated from the installed source on every native build; if that
+// source does not have the expected shape the replay runs on the real clock.
+func clockOverlay(work string) (string, string, bool) {
+	out, err := exec.Command("go", "env", "GOROOT").Output()
+	if err != nil {
+		return "", "", false
+	}
+	src := filepath.Join(strings.TrimSpace(string(out)), "src", "time", "time.go")
+	b, err := os.ReadFile(src)
+	if err != nil {
+		return "", "", false
+	}
+	s := string(b)
+	reps := [][2]string{
+		{"func Now() Time {\n", "func Now() Time {\n\tif VerifClock != nil {\n\t\tif w, e, ok := VerifClock(); ok {\n\t\t\treturn Time{w, e, Local}\n\t\t}\n\t}\n"},
+		{"subMono(runtimeNano()-startNano, t.ext)", "subMono(verifMono(), t.ext)"},
+		{"subMono(t.ext, runtimeNano()-startNano)", "subMono(t.ext, verifMono())"},
+	}
+	for _, r := range reps {
+		if strings.Count(s, r[0]) != 1 {
+			return "", "", false
+		}
+		s = strings.Replace(s, r[0], r[1], 1)
+	}
+	s += `
+// replay hooks (verification overlay only)
+var VerifClock func() (wall uint64, ext int64, ok bool)
+var VerifMono func() (int64, bool)
+
+func verifMono() int64 {
+	if VerifMono != nil {
+		if m, ok := VerifMono(); ok {
+			return m
+		}
+	}
+	return runtimeNano() - startNano
+}
+`
+	dst := filepath.Join(work, "time_go_overlay.txt")
+	if os.WriteFile(dst, []byte(s), 0o644) != nil {
+		return "", "", false
+	}
+	return src, dst, true
 }
 
 func tail(s string, n int) string {
@@ -169,7 +222,7 @@ func runNative(nb *nativeBuild, replayPath string) (string, []string) {
 }
 
 func workDir() string {
-	d := filepath.Join(verifDir(), ".work", fmt.Sprintf("%d", os.Getpid()))
+	d := filepath.Join(outDir(), ".work", fmt.Sprintf("%d", os.Getpid()))
 	os.MkdirAll(d, 0o755)
 	return d
 }
@@ -267,7 +320,7 @@ func validatePaths(eng *Engine, vals []*validation, property string) (int, []str
 			res, obs := runNative(nb, p)
 			if res != "ok" {
 				mism = append(mism, fmt.Sprintf("%s picks=%s: engine path ends ok, native run: %s", v.Entry.Entry, picksString(v.Picks), res))
-				keep := filepath.Join(verifDir(), "replays", property)
+				keep := filepath.Join(outDir(), "replays", property)
 				os.MkdirAll(keep, 0o755)
 				os.WriteFile(filepath.Join(keep, fmt.Sprintf("mismatch-%s-%d.json", v.Entry.Entry, i)), b, 0o644)
 				continue
@@ -278,7 +331,7 @@ func validatePaths(eng *Engine, vals []*validation, property string) (int, []str
 			}
 			if strings.Join(want, "\n") != strings.Join(obs, "\n") {
 				mism = append(mism, fmt.Sprintf("%s picks=%s: observations differ: engine %v native %v", v.Entry.Entry, picksString(v.Picks), want, obs))
-				keep := filepath.Join(verifDir(), "replays", property)
+				keep := filepath.Join(outDir(), "replays", property)
 				os.MkdirAll(keep, 0o755)
 				os.WriteFile(filepath.Join(keep, fmt.Sprintf("mismatch-%s-%d.json", v.Entry.Entry, i)), b, 0o644)
 				continue
